@@ -163,7 +163,8 @@ def class_case(draw, alg):
          "hc_order": draw(st.permutations(["conj", "xi_max", "mpc_lim", "mpd_lim", "cov_max"])),  # the user's own key order
          "decoy": draw(st.booleans()),
          "ordmin": draw(st.sampled_from([0, 0, 1, 2, 3])),
-         "cov_max": draw(st.sampled_from([1e-4, 1e-2, 0.2, 1e6])),
+         "cov_max": draw(st.sampled_from([1e-4, 1e-2, 0.2, 1e6, 1e-12])),  # 1e-12: stricter than the most certain pole
+         "conj_form": draw(st.sampled_from(["bool", "bool", "npbool", "int"])),  # True / np.True_ / 1 are the same switch
          "nxseg": draw(st.sampled_from([128, 256])), "method_SD": draw(st.sampled_from(["per", "cor"])),
          "refsub": draw(st.booleans()),
          # in a third of the cases the same algorithm object ran before with other criteria, which the user then changed
@@ -213,6 +214,7 @@ def judge_class(case):
     S = modal.Sys(case["sys"])
     hc = dict(conj=case["conj"], xi_max=case["xi_max"], mpc_lim=case["mpc_lim"], mpd_lim=case["mpd_lim"], cov_max=case["cov_max"])
     hc = {k_: hc[k_] for k_ in case.get("hc_order", list(hc))}
+    hc["conj"] = {"bool": bool, "npbool": np.bool_, "int": int}[case.get("conj_form", "bool")](case["conj"])
     j.tag(alg, "conj_on" if case["conj"] else "conj_off")
     ms = alg.endswith("_MS")
     ref_ind = None
